@@ -39,6 +39,8 @@ type DirCase struct {
 	Unpriv bool `json:"unpriv,omitempty"`
 	// Sub: name of the directory (below the scratch directory) handed to the tool
 	Sub string `json:"sub,omitempty"`
+	// Via: how the CLI is told where the files are (see injectVia)
+	Via string `json:"via,omitempty"`
 }
 
 func (e *DirEntry) content() (string, []Span) {
@@ -179,6 +181,9 @@ func genDirCase(t *rapid.T) *DirCase {
 		}
 	}
 	c.Sub = genDirName(t, c.Mode == "cli-p")
+	if strings.HasPrefix(c.Mode, "cli-") {
+		c.Via = rapid.SampledFrom(injectVias).Draw(t, "via")
+	}
 	if c.Mode == "cli-p" {
 		c.Pattern = rapid.SampledFrom([]string{"", "", "*", "*.pb.*", "[a-m]*", "*_annotated*", "*.go*", "?*_*"}).Draw(t, "pattern")
 	}
@@ -228,6 +233,8 @@ func checkDir(c *DirCase) (msg string, badBeforeGood bool) {
 		files = append(files, orig{p, txt, spans, e})
 		names = append(names, e.Name)
 	}
+	injectVia = c.Via
+	defer func() { injectVia = "" }()
 	unpriv := c.Unpriv && strings.HasPrefix(c.Mode, "cli-") && unprivHow() != ""
 	if unpriv {
 		if unprivHow() == "setuid" { // hand the whole directory to the unprivileged user
@@ -368,6 +375,9 @@ func TestC19(t *testing.T) {
 		ev.Class("mode=" + c.Mode)
 		if c.Sub != "" {
 			ev.Class("directory-name=" + c.Sub)
+		}
+		if c.Via != "" {
+			ev.Class("path-given-as=" + c.Via)
 		}
 		if c.Unpriv {
 			ev.Class("unprivileged-run:" + unprivHow())
